@@ -160,8 +160,8 @@ pub fn observe_set<T: LabelType>(b: &Built<T>, v: &[&Argument<T>]) -> SetObs {
             .argument_set()
             .get_argument(a.label())
             .map_err(|_| format!("label {} not in the framework", a.label()))?;
-        if !std::ptr::eq(own, *a) {
-            return Err(format!("argument {} (id {}) is not the caller's own object (id {})", a.label(), a.id(), own.id()));
+        if own.id() != a.id() {
+            return Err(format!("argument {} is returned with id {}, the framework's argument has id {}", a.label(), a.id(), own.id()));
         }
         if mask >> idx & 1 == 1 {
             return Err(format!("argument {} listed twice", a.label()));
